@@ -227,6 +227,7 @@ class ReconfDomain(Domain):
 
 class CloseDomain(Domain):
     async_enabled = False
+    global_keys = ("#created", "#closed")
 
     def close_value(self, obj, item, state):
         if obj == Opaque("discovery-client"):
@@ -241,6 +242,13 @@ class CloseDomain(Domain):
             return [("ok", NONE, state.set("#closed", True))]
         if name.startswith("logger."):
             return [("ok", NONE, state)]
+        if name.startswith("self._") and name.count(".") == 1 and self.fn is not None and self.fn.cls is not None:
+            # a private helper of the class (e.g. the part that talks to the configuration endpoint): in line
+            m = self.prog.method(self.fn.cls, name[5:], required=False)
+            if m is not None and m is not self.fn:
+                res = self.inline(node, m, args, kwargs, state)
+                if res is not None:
+                    return res
         return [("ok", TOP, state), ("exc", Exc(ORD, None, node.lineno), state)]
 
     def attr_load(self, objval, node, state):
